@@ -34,6 +34,9 @@ type Op17 struct {
 	Noise int      `json:"noise,omitempty"` // unsolicited events before each ack
 	Eintr int      `json:"eintr,omitempty"` // transient EINTR receive failures before the ack
 	Hard  int      `json:"hard,omitempty"`  // errno of ONE non-transient receive failure that hits the first wait for this ack
+	// BadType: the kernel's answer to this NoWait request carries its sequence number but is not an NLMSG_ERROR
+	// (type given here): the wait reports an error, and the answer is consumed all the same — once
+	BadType int `json:"bad_type,omitempty"`
 }
 
 type C17Case struct {
@@ -54,7 +57,7 @@ type C17Case struct {
 func (c C17Case) Describe() string {
 	var b strings.Builder
 	for i, o := range c.Ops {
-		fmt.Fprintf(&b, " %d %s u32=%d ack-errno=%d rules=%x noise=%d eintr=%d\n", i, o.K, o.U32, o.Errno, o.Rules, o.Noise, o.Eintr)
+		fmt.Fprintf(&b, " %d %s u32=%d ack-errno=%d rules=%x noise=%d eintr=%d hard=%d answer-type=%d\n", i, o.K, o.U32, o.Errno, o.Rules, o.Noise, o.Eintr, o.Hard, o.BadType)
 	}
 	fmt.Fprintf(&b, " (closing the socket returns errno %d)", c.CloseErrno)
 	fmt.Fprintf(&b, " then Close x %d (sends during Close fail with errno %d), then WaitForPendingACKs x %d (reads on the closed socket fail: %v), then %v\n", c.Closes, c.CloseSendErrno, c.AfterClose, c.ClosedReads, c.Tail)
@@ -77,7 +80,9 @@ func genC17(t *rapid.T) C17Case {
 		}
 		o.Noise = rapid.SampledFrom([]int{0, 0, 0, 1, 2, 10, 9, 11, 25}).Draw(t, "noise")
 		o.Eintr = rapid.SampledFrom([]int{0, 0, 0, 1, 3, 9}).Draw(t, "eintr")
-		if o.K == "nowait" && rapid.IntRange(0, 7).Draw(t, "hard") == 0 {
+		if o.K == "nowait" && rapid.IntRange(0, 9).Draw(t, "badtype") == 0 {
+			o.BadType = rapid.SampledFrom([]int{1001, 1000, 3, 1300}).Draw(t, "badtypeval")
+		} else if o.K == "nowait" && rapid.IntRange(0, 7).Draw(t, "hard") == 0 {
 			o.Hard = rapid.SampledFrom([]int{int(syscall.ENOBUFS), int(syscall.EBADF), int(syscall.ENOTCONN)}).Draw(t, "harderrno")
 		}
 		if o.K == "getrules" {
@@ -108,6 +113,7 @@ type pend struct {
 	noise int
 	eintr int
 	hard  int
+	bad   int
 }
 
 func propC17(c C17Case) error {
@@ -153,12 +159,16 @@ func propC17(c C17Case) error {
 			for j := 0; j < p.eintr; j++ {
 				k.Fail(syscall.EINTR)
 			}
+			if p.bad != 0 {
+				k.Push(simk.Msg(uint16(p.bad), 0, p.seq, 0, make([]byte, 44)))
+				break // the call stops there
+			}
 			k.Push(simk.Ack(p.seq, p.errno, uint16(uapi.A("AUDIT_SET"))))
 		}
 		before := k.Recvs
 		err := cl.WaitForPendingACKs()
 		consumed, recvs, wantErrno := 0, 0, 0
-		hardHit := false
+		hardHit, badHit := false, false
 		for pi := range pending {
 			p := &pending[pi]
 			if p.hard != 0 {
@@ -170,10 +180,26 @@ func propC17(c C17Case) error {
 			}
 			consumed++
 			recvs += 1 + p.noise + p.eintr
+			if p.bad != 0 {
+				badHit = true
+				break
+			}
 			if p.errno != 0 {
 				wantErrno = p.errno
 				break
 			}
+		}
+		if badHit {
+			if err == nil {
+				return fmt.Errorf("%s: the answer to a pending request was not an NLMSG_ERROR, but the call returned nil", what)
+			}
+			if got := k.Recvs - before; got != recvs {
+				return fmt.Errorf("%s: %d receive calls, want %d", what, got, recvs)
+			}
+			pending = pending[consumed:] // read once, gone: later calls go on with the next request
+			waits++
+			hC17.Class("waitacks-with-answer-of-another-type")
+			return nil
 		}
 		if hardHit {
 			if err == nil {
@@ -220,7 +246,7 @@ func propC17(c C17Case) error {
 			if k.Recvs != before {
 				return fmt.Errorf("%s: a NoWait request performed %d receives", what, k.Recvs-before)
 			}
-			pending = append(pending, pend{k.Seq, o.Errno, o.Noise, o.Eintr, o.Hard})
+			pending = append(pending, pend{k.Seq, o.Errno, o.Noise, o.Eintr, o.Hard, o.BadType})
 			nowaits++
 			if o.Errno != 0 {
 				errAmong = true
